@@ -76,6 +76,16 @@ let () =
            let dir = bytes_of_hex toks.(5) and sub = bytes_of_hex toks.(6) in
            let (fl, cs) = rules toks 7 in
            print_endline (p01 (g_scan_skips nohidden cs fl disk dir sub name isdir))
+         | "why" ->
+           let nohidden = b01 toks.(1) and isdir = b01 toks.(2) in
+           let name = bytes_of_hex toks.(3) and disk = bytes_of_hex toks.(4) in
+           let dir = bytes_of_hex toks.(5) and sub = bytes_of_hex toks.(6) in
+           let (fl, cs) = rules toks 7 in
+           let rec int_of_nat = function O -> 0 | S n -> 1 + int_of_nat n in
+           (* rule indices count the file rules only (content tokens are not rules) *)
+           print_endline (match g_scan_why nohidden cs fl disk dir sub name isdir with
+               | WKeep -> "0" | WHidden -> "h" | WContent -> "c"
+               | WRule None -> "r-" | WRule (Some k) -> Printf.sprintf "r%d" (int_of_nat k))
          | "" -> print_endline ""
          | _ -> print_endline "unknown"
        with Bad i -> print_endline (Printf.sprintf "bad %d" i)
